@@ -114,6 +114,9 @@ def acting_as(repo, f, allowed) -> bool:
 
 def check_writers(ctx, rule, attr, allowed, floor, what):
     """allowed: {qualname: reason}.  Every writer of .<attr> anywhere must be in the table."""
+    # a private attribute that a table of this run found renamed in its whole class is looked for under its new name
+    for m in ctx.__dict__.get('_priv_maps', {}).values():
+        attr = m.get(attr, attr)
     sites = attr_writers(ctx.repo, attr)
     ctx.stats['sites_scanned'] += len(sites)
     ctx.floor(rule, len(sites), floor, 'writer sites of .%s' % attr)
